@@ -267,7 +267,8 @@ fn judge_after_failed_direct(f: &Fault, n: u32, ctx: &mut Ctx) {
     lines.sort_by_key(|l| l.0);
     lines.dedup_by_key(|l| l.0);
     let typed: Vec<String> = lines.iter().map(|(k, t)| format!("{} {}", k, t)).collect();
-    for pre in ["PRINT )", "GOTO 64000", "WEND"] {
+    // (a direct line that fails; or an earlier, differently faulty version of line 20 that was compiled by a RUN)
+    for pre in ["PRINT )", "GOTO 64000", "WEND", "20 GOTO|RUN", "20 PRINT )|RUN", "20 WEND|LIST", "20 A=(|GOTO 10"] {
         let desc = format!("{} // {} // RUN // LIST // GOTO 10  vs the same without the failing direct line", pre, typed.join(" / "));
         if !ctx.begin(&desc) {
             continue;
@@ -276,7 +277,9 @@ fn judge_after_failed_direct(f: &Fault, n: u32, ctx: &mut Ctx) {
             let run = |pre: Option<&str>| {
                 let mut s = Session::new();
                 if let Some(p) = pre {
-                    s.enter(p);
+                    for part in p.split('|') {
+                        s.enter(part);
+                    }
                     s.take();
                 }
                 for l in &typed {
@@ -453,6 +456,94 @@ impl Sweep for Faults {
     }
 }
 
+/// Programs with several faults on different lines: every diagnostic is listed
+/// and every one of them is underlined by LIST at its own line, in whatever
+/// order the compiler collected them.
+struct SeveralFaults;
+
+impl Sweep for SeveralFaults {
+    fn name(&self) -> String {
+        "several-faults-on-different-lines".into()
+    }
+    fn shards(&self) -> usize {
+        1
+    }
+    fn run_shard(&self, _shard: usize, ctx: &mut Ctx) {
+        let faults = ["WHILE A", "WEND", "GOTO 7000", "GOSUB 7100", "IF A THEN 7200 ELSE 7300", "ON A GOTO 10,7400", "RESTORE 7500", "PRINT )", "A=("];
+        // every ordered pair and triple of faults on lines 20, 40, 60 (clean lines in between)
+        let mut progs: Vec<Vec<String>> = vec![];
+        for a in faults {
+            for b in faults {
+                progs.push(vec!["10 PRINT \"m\";".into(), format!("20 {}", a), "30 PRINT \"m\";".into(), format!("40 {}", b)]);
+                for c in ["WHILE B", "WEND", "GOTO 7600"] {
+                    progs.push(vec![format!("20 {}", a), format!("40 {}", b), "50 REM".into(), format!("60 {}", c)]);
+                }
+            }
+        }
+        progs.push((0..8).map(|i| format!("{} GOTO {}", 10 + i * 10, 7000 + i * 100)).collect());
+        progs.push((0..6).map(|i| format!("{} WHILE A{}", 10 + i * 10, i)).collect());
+        for p in progs {
+            if !ctx.begin(&format!("{} // RUN // LIST", p.join(" / "))) {
+                continue;
+            }
+            let r = guard(|| {
+                let mut s = Session::new();
+                for l in &p {
+                    s.enter(l);
+                }
+                s.take();
+                s.enter("RUN");
+                let run = s.take();
+                s.enter("LIST");
+                (run, s.take())
+            });
+            match r {
+                Err(pn) => ctx.violation("several-faults/panic", pn),
+                Ok((run, list)) => {
+                    let errs: Vec<&crate::driver::ErrInfo> = run.iter().flat_map(|e| if let Ev::Err(v) = e { v.iter().collect() } else { vec![] }).collect();
+                    ctx.nontrivial(hash64(&(p.len(), errs.len(), &p[0], &p[1])));
+                    let printed: String = run.iter().filter_map(|e| if let Ev::Out(t) = e { Some(t.clone()) } else { None }).collect();
+                    // (WHILE and WEND lines may pair up with each other: which of them are faults is not decided here)
+                    let loops = p.iter().any(|l| l.contains("WHILE") || l.contains("WEND"));
+                    if printed.contains('m') && !errs.is_empty() {
+                        ctx.violation("RUN/program-with-errors-executes", format!("{} : printed {:?}", p.join(" / "), printed));
+                    }
+                    // every faulty line is reported
+                    // (link faults are only looked for once every line parses: a syntax fault hides them)
+                    let syntax = p.iter().any(|l| l.ends_with("PRINT )") || l.ends_with("A=("));
+                    for l in p.iter().filter(|_| !loops && !syntax) {
+                        let n: u32 = l.split(' ').next().unwrap().parse().unwrap();
+                        let faulty = !(l.ends_with("PRINT \"m\";") || l.ends_with("REM"));
+                        if faulty && !errs.iter().any(|e| e.line == Some(n)) {
+                            ctx.violation("several-faults/faulty-line-not-reported", format!("{} : nothing reported for line {}", p.join(" / "), n));
+                        }
+                    }
+                    // every diagnostic is underlined where LIST shows its line
+                    for e in &errs {
+                        let n = match e.line {
+                            Some(n) => n,
+                            None => continue,
+                        };
+                        let cols = list.iter().find_map(|ev| match ev {
+                            Ev::List(t, cols) if t.starts_with(&format!("{} ", n)) => Some(cols.clone()),
+                            _ => None,
+                        });
+                        match cols {
+                            None => ctx.violation("several-faults/faulty-line-not-listed", format!("{} : line {}", p.join(" / "), n)),
+                            Some(c) => {
+                                if !c.contains(&e.range) {
+                                    ctx.violation("several-faults/LIST-underline-missing", format!("{} : {} has range {:?}, LIST underlines {:?}", p.join(" / "), e.raw, e.range, c));
+                                }
+                            }
+                        }
+                    }
+                }
+            }
+        }
+        ctx.sample();
+    }
+}
+
 /// A clean program stops with something to resume (STOP / END inside a loop
 /// inside a subroutine, an interrupt); an edit then makes it faulty; no way of
 /// resuming or entering it may run any of its lines.
@@ -560,7 +651,7 @@ impl Check for C19 {
         "C19"
     }
     fn sweeps(&self, _tier: Tier) -> Vec<Box<dyn Sweep>> {
-        vec![Box::new(Faults { damaged: false }), Box::new(Faults { damaged: true }), Box::new(BrokenWhileStopped)]
+        vec![Box::new(Faults { damaged: false }), Box::new(Faults { damaged: true }), Box::new(BrokenWhileStopped), Box::new(SeveralFaults)]
     }
     fn meta(&self, _tier: Tier) -> Meta {
         Meta {
